@@ -7,6 +7,7 @@
 import DuckModel.Wire
 import DuckModel.Includes
 import DuckModel.Scripted
+import DuckModel.Sdk.ProcessCmd
 
 namespace Duck.Drv.C14
 open Duck Duck.Wire
@@ -31,7 +32,7 @@ def handle (toks : List String) : Option String :=
       | .error e => "PARSEERR " ++ encPErr e.kind ++ " " ++ encMeta e.mi
       | .ok is =>
         let st : ScriptedSt := { queue := queue }
-        let (rs, e) := run (scriptedSem names) scriptedHalt fuel is vars st
+        let (rs, e) := run (scriptedSemX names) scriptedHalt fuel is vars st
         let log := ";".intercalate (rs.st.log.map fun l => encStr l.name ++ "@" ++ toString l.line ++ encList l.args)
         let logs := " | LOG " ++ log
         match e with
